@@ -143,5 +143,35 @@ def error (it : Iterator) : Option Err :=
 def close (it : Iterator) : BamReader × Option Err :=
   ((it.br.setChunk none).1, it.error)
 
+/-- The client loop `for it.Next() { use(it.Record()) }`, at most `k` rounds: the records seen. -/
+def collect : Nat → Iterator → Iterator × List (List UInt8)
+  | 0, it => (it, [])
+  | k + 1, it =>
+    match it.next with
+    | (it', some rec) => let (it'', rs) := collect k it'; (it'', rec :: rs)
+    | (it', none) => (it', [])
+
 end Iterator
+
+/-- The client loop `for { rec, err := br.Read(); if err != nil { break }; note(rec, br.LastChunk()) }`,
+at most `k` rounds: the records with their chunks, and the error that ended the loop (if it ended). -/
+def BamReader.readN : Nat → BamReader → BamReader × List (List UInt8 × Chunk) × Option Err
+  | 0, br => (br, [], none)
+  | k + 1, br =>
+    match br.read with
+    | (br', .ok body) => let (br'', rs, e) := readN k br'; (br'', (body, br'.lastChunk) :: rs, e)
+    | (br', .error e) => (br', [], some e)
+
+/-- `block_size` as the writer stores it. -/
+def le32 (n : Nat) : List UInt8 :=
+  [UInt8.ofNat (n % 256), UInt8.ofNat (n / 256 % 256), UInt8.ofNat (n / 65536 % 256),
+   UInt8.ofNat (n / 16777216 % 256)]
+
+/-- One record in the uncompressed stream. -/
+def frame (body : List UInt8) : List UInt8 := le32 body.length ++ body
+
+def frames : List (List UInt8) → List UInt8
+  | [] => []
+  | b :: bs => frame b ++ frames bs
+
 end Hts.Model.Bgzf
